@@ -733,17 +733,22 @@ func (s *Server) Invoke(responseWriter http.ResponseWriter, invoke *interop.Invo
 		// through return values of FastInvoke and not Reserve()
 
 		reserveResp, err := s.Reserve("", "", "")
+		if timedOutCtx.Err() != nil {
+			// Only got to reserve after the invoke timeout had fired: Invoke() answers with the
+			// timeout and its reset may already be over, so nobody else would release this
+			// reservation. The outcome of an init that failed or was interrupted by that reset is
+			// still waiting for this invoke: left there, the next invoke would take it for its own.
+			log.Infof("Reserved after the invoke timed out: releasing")
+			_, _ = s.awaitInitialized()
+			if err == nil {
+				_ = s.Release()
+			}
+			releaseErrChan <- ErrInvokeTimeout
+			return
+		}
 		if err != nil {
 			log.Infof("ReserveFailed: %s", err)
 			releaseErrChan <- err
-			return
-		}
-		if timedOutCtx.Err() != nil {
-			// Reserved only after the invoke timeout had fired: Invoke() answers with the timeout
-			// and its reset may already be over, so nobody else would release this reservation.
-			log.Infof("Reserved after the invoke timed out: releasing")
-			_ = s.Release()
-			releaseErrChan <- ErrInvokeTimeout
 			return
 		}
 
